@@ -86,7 +86,7 @@ class StepGenModel(object):
 
             def __call__(self_inner):
                 for s in range(gen.num_steps):
-                    items = [DV({('x', c)}, 'f', 'pos', sel={('step', s, c)}) for c in range(size)]
+                    items = [DV({('x', c), ('hstep', c)}, 'f', 'pos', sel={('step', s, c)}) for c in range(size)]
                     yield Arr(shape, items)
         return G()
 
